@@ -309,8 +309,22 @@ Proof.
 Qed.
 
 (* ------------------------------------------------------------------ the wrapper *)
+(* set_default_csrf_options' action runs strictly before add_view's, whatever the statement order *)
+Lemma Facts_ok_order : (sdc_order <? view_order)%Z = true.
+Proof. vm_compute. reflexivity. Qed.
+
+Lemma defaults_always_visible b : defaults_visible b = true.
+Proof. unfold defaults_visible. rewrite Facts_ok_order. reflexivity. Qed.
+
 Lemma effective_is_spec c : effective c = spec_effective c.
-Proof. unfold effective, spec_effective. destruct (c_defaults c); reflexivity. Qed.
+Proof.
+  unfold effective, spec_effective. rewrite defaults_always_visible. cbn [negb].
+  destruct (c_defaults c); reflexivity.
+Qed.
+
+(* the verdict does not depend on where set_default_csrf_options is stated *)
+Lemma effective_order_irrelevant c b : effective (with_defaults_first c b) = effective c.
+Proof. rewrite !effective_is_spec. reflexivity. Qed.
 
 Lemma enabled_is_in_force c : csrf_enabled c = spec_in_force c.
 Proof.
@@ -555,7 +569,7 @@ Proof. vm_compute. repeat split; reflexivity. Qed.
 Lemma nothing_configured_unchecked pr c r :
   c_defaults c = None -> c_explicit c <> Some true -> view_outcome_p pr c r = Ran.
 Proof.
-  intros Hd Hx. unfold view_outcome_p, checks_apply, csrf_enabled, effective. rewrite Hd.
+  intros Hd Hx. unfold view_outcome_p, checks_apply, csrf_enabled, effective, builtin_options. rewrite Hd.
   destruct Facts_ok_defaults as (Hr & _). cbn [o_require]. rewrite Hr.
   destruct (c_explicit c) as [[|]|]; [contradiction| |]; reflexivity.
 Qed.
@@ -744,4 +758,10 @@ Qed.
 Lemma query_string_never_read pr c r v : view_outcome_p pr c (with_query_string r v) = view_outcome_p pr c r.
 Proof.
   unfold view_outcome_p, checks_apply. rewrite req_method_qs, check_origin_qs, check_token_qs. reflexivity.
+Qed.
+
+Lemma declaration_order_irrelevant pr c b r :
+  view_outcome_p pr (with_defaults_first c b) r = view_outcome_p pr c r.
+Proof.
+  unfold view_outcome_p, checks_apply, csrf_enabled. rewrite effective_order_irrelevant. reflexivity.
 Qed.
